@@ -21,6 +21,8 @@ type C20Case struct {
 	// LateHide: the commands are declared visible, one diagnostic is produced,
 	// then the Hidden field of the commands is set (it is a public field)
 	LateHide bool `json:"late_hide,omitempty"`
+	// Aliases of the commands (never part of a diagnostic)
+	Aliases [][]string `json:"aliases,omitempty"`
 }
 
 var _ = Register("C20", func() interface{} { return new(C20Case) }, func(c interface{}) string { return c20Oracle(c.(*C20Case)) })
@@ -83,6 +85,26 @@ func genC20(t *rapid.T) *C20Case {
 			c.Names[i] += strings.Repeat(string(c20Alphabet[i%len(c20Alphabet)]), rapid.IntRange(55, 130).Draw(t, "nameLen"))
 		}
 	}
+	if rapid.IntRange(0, 2).Draw(t, "withAliases") == 0 {
+		c.Aliases = make([][]string, len(c.Names))
+		for i := range c.Names {
+			for j := rapid.IntRange(0, 2).Draw(t, "naliases"); j > 0; j-- {
+				al := genC20Word(t, "alias", 1, 6)
+				// (or a near miss of some name, so that it competes in distance)
+				if rapid.Bool().Draw(t, "aliasNearName") {
+					w := []rune(rapid.SampledFrom(c.Names).Draw(t, "aliasBase"))
+					if len(w) < 20 {
+						w[rapid.IntRange(0, len(w)-1).Draw(t, "aliasPos")] = rapid.SampledFrom(c20Alphabet).Draw(t, "aliasRune")
+						al = string(w)
+					}
+				}
+				if !seen[al] {
+					seen[al] = true
+					c.Aliases[i] = append(c.Aliases[i], al)
+				}
+			}
+		}
+	}
 	c.LateHide = rapid.IntRange(0, 2).Draw(t, "lateHide") == 0
 	switch rapid.IntRange(0, 9).Draw(t, "wordkind") {
 	case 0:
@@ -131,6 +153,9 @@ func c20Decl(c *C20Case) *Decl {
 			ID: fmt.Sprintf("c%d", i), Name: n, Field: fmt.Sprintf("C%d", i), ByTag: i%2 == 0,
 			Hidden: c.Hidden[i], Desc: "d",
 		})
+		if i < len(c.Aliases) {
+			d.Root.Cmds[i].Aliases = c.Aliases[i]
+		}
 	}
 	return d
 }
@@ -155,6 +180,13 @@ func c20Oracle(c *C20Case) string {
 		}
 		if c.HasArg && n == c.Word {
 			isName = true
+		}
+		if i < len(c.Aliases) {
+			for _, a := range c.Aliases[i] {
+				if c.HasArg && a == c.Word {
+					isName = true
+				}
+			}
 		}
 	}
 	sort.Strings(visible)
@@ -264,6 +296,9 @@ func c20Oracle(c *C20Case) string {
 	if multibyte {
 		st.Label("multibyte")
 	}
+	if len(c.Aliases) > 0 {
+		st.Label("commands with aliases")
+	}
 	const dym = ", did you mean `"
 	if strings.HasPrefix(rest, dym) && strings.HasSuffix(rest, "'?") {
 		sug := rest[len(dym) : len(rest)-2]
@@ -306,6 +341,6 @@ func c20Oracle(c *C20Case) string {
 }
 
 func TestC20(t *testing.T) {
-	S("C20").Rule = "1-6 command names (len 1-8 over {a,b,c,d,é,è,ũ,д,н,中,丟}, in 5% of cases extended to 56-138 characters, ~20% hidden, alternating tag/programmatic declaration) x word (absent | random | 1-3 edits of a name); oracle: own rune Levenshtein + parsed message. non-trivial: word is no command name and (nearest visible distance <= 3 or multi-byte involved), or command-required with >= 2 visible; distinct by (names, hidden, word)"
+	S("C20").Rule = "1-6 command names (len 1-8 over {a,b,c,d,é,è,ũ,д,н,中,丟}, in 5% of cases extended to 56-138 characters, ~20% hidden, a third of the cases with 0-2 aliases per command, alternating tag/programmatic declaration) x word (absent | random | 1-3 edits of a name); oracle: own rune Levenshtein + parsed message. non-trivial: word is no command name and (nearest visible distance <= 3 or multi-byte involved), or command-required with >= 2 visible; distinct by (names, hidden, word)"
 	runProp(t, "C20", genC20, c20Oracle)
 }
